@@ -415,6 +415,9 @@ class FuncTr:
                 return f"(qenumerate {self.expr(it.args[0])})"
             if it.func.id == "zip" and len(it.args) == 2:
                 return f"(combine {self.expr(it.args[0])} {self.expr(it.args[1])})"
+            if it.func.id == "zip" and len(it.args) == 3:
+                # Python yields flat triples; Coq's '(x, y, z) pattern is ((x, y), z): same truncation to the shortest list
+                return f"(combine (combine {self.expr(it.args[0])} {self.expr(it.args[1])}) {self.expr(it.args[2])})"
         return self.expr(it)
 
     def pattern(self, t):
@@ -1246,6 +1249,29 @@ class Gen:
         self.out.append(f"(* {fname}:{node.lineno} {qual}: the data rows *)\n{tr.translate()}")
         self.out.append(f"(* {fname}:{hd.lineno} {qual}: header row *)\nDefinition {header_coqname} : list string := {self.slist([e.value for e in hd.value.elts[0].elts])}.")
 
+    def loop_rows(self, fname, qual, coqname, params, pinned):
+        """the single `for` loop of a table builder whose inputs are produced by other statements: the loop is translated as a function of `params`
+        (all lists of numbers); the statements listed in `pinned` must be present verbatim and are emitted as text (they say where the inputs come from)"""
+        import copy
+        node = self.find(fname, qual)
+        texts = [ast.unparse(s) for s in node.body]
+        for t in pinned:
+            if t not in texts:
+                raise Unsupported(f"{qual}: statement `{t}` not found")
+        loops = [s for s in node.body if isinstance(s, ast.For)]
+        if len(loops) != 1 or loops[0].orelse or node.body[-1] is loops[0] or ast.unparse(node.body[-1]) != "return csv_array" or node.body[-2] is not loops[0]:
+            raise Unsupported(f"{qual}: expected exactly one loop, directly followed by `return csv_array`")
+        assigned = [ast.unparse(t) for s in node.body if isinstance(s, ast.Assign) for t in s.targets]
+        if assigned.count("csv_array") != 1:
+            raise Unsupported(f"{qual}: csv_array must be assigned once (the header) before the loop")
+        fake = ast.FunctionDef(name=coqname, args=ast.arguments(posonlyargs=[], args=[ast.arg(arg=a) for a in params], kwonlyargs=[], kw_defaults=[], defaults=[]),
+                               body=[ast.parse("csv_array = []").body[0], copy.deepcopy(loops[0]), ast.parse("return csv_array").body[0]],
+                               decorator_list=[], lineno=node.lineno, col_offset=0)
+        ast.fix_missing_locations(fake)
+        tr = FuncTr(self, fake, coqname, ptypes={a: "list Q" for a in params})
+        self.out.append(f"(* {fname}:{loops[0].lineno} {qual}: the data rows *)\n{tr.translate()}")
+        self.out.append(f"(* {fname}:{node.lineno} {qual}: where the columns come from *)\nDefinition {coqname}_sources : list string := {self.slist(pinned)}.")
+
     def raw(self, text):
         self.out.append(text)
 
@@ -1391,6 +1417,9 @@ def build_spec(g):
     g.func("output.py", "OutputManager.ghe_time_convert", coqname="ghe_time_convert", rettype="tuple")
     g.table_rows("output.py", "OutputManager.get_hourly_loading_data", "hourly_table_rows", "hourly_loadings = design.ghe.hourly_extraction_ground_loads",
                  "hourly_loadings", "list Q", "hourly_table_header")
+    g.loop_rows("output.py", "OutputManager.get_g_function_data", "g_table_rows", ["gf_log_vals", "gf_g_vals", "gf_bhw_g_vals"],
+                ["gf_adjusted, gf_bhw_adjusted = design.ghe.grab_g_function(design.ghe.B_spacing / float(design.ghe.bhe.b.H))",
+                 "gf_log_vals = gf_adjusted.x", "gf_g_vals = gf_adjusted.y", "gf_bhw_g_vals = gf_bhw_adjusted.y"])
     g.table_rows("output.py", "OutputManager.get_borehole_location_data", "bore_table_rows", None, "bore_locations", "list (Q * Q)", "bore_table_header")
     # ---- search and sizing leaves ----
     g.func("utilities.py", "sign")
